@@ -50,6 +50,10 @@ def build_script(assertions, opts=None, want_model=None, extra=None, abstract=Fa
             extra_names.append('|pi|')
         names = (names + ' ' + ' '.join(extra_names)).strip()
         if names:
+            # twice: as 17-place decimals (algebraic numbers get an approximation) and exactly (tiny rationals, which the
+            # decimal form truncates to 0, keep their value); get_model prefers the exact value where there is one
+            lines.append('(get-value (%s))' % names)
+            lines.append('(set-option :pp.decimal false)')
             lines.append('(get-value (%s))' % names)
     return '\n'.join(lines) + '\n', ax.groups, pr
 
@@ -198,6 +202,8 @@ def get_model(out):
                     break
             e += 1
         val = txt[k + 1:e].strip()
-        m[name] = parse_value(val)
+        v = parse_value(val)
+        if v is not None or name not in m:
+            m[name] = v
         i = e + 1
     return m
